@@ -39,5 +39,11 @@ def run(ctx):
         lo = r.randrange(0, 1 << 20)
         mjobs.append(("term", params, (lo, lo + per), True, r.choice(["0.05", "0.1", "0.3", "0.5"])))
     proto.miri_batch(ctx, "C12", mjobs)
+    if not ctx.quick():
+        tj = []
+        for i in range(48):
+            r = ctx.rng("tsan", i)
+            tj.append(("term", {"seed": ctx.seed * 31337 + i, "threads": r.choice([2, 3, 4]), "shape": i % 4, "items": r.choice([300, 3000]), "rounds": 3, "perturb": r.choice([0, 200])}))
+        proto.run_tsan(ctx, "C12", tj)
     ctx.required_counters = ["TERMINATOR_SLEEPS", "TERMINATOR_WAKEUPS", "TERMINATOR_FASTPATH", "TERMINATOR_TERMINATED", "miri_schedules_completed"]
     ctx.min_distinct = 20
